@@ -265,6 +265,13 @@ def _tall_matrix(draw, weights=(6, 2, 2), nmax=NMAX, nmin=1):
     m = min(nmax, n + draw(st.sampled_from([0, 0, 1, 1, 2, 3, 6])))
     s, _ = draw(_spectrum(n, weights))
     A = draw(gen.matrix_with_svals(m, n, s))
+    if draw(st.integers(0, 4)) == 0 and s[-1] >= 0.3:
+        # badly row-scaled (or column-scaled) but still cond <= ~1e3: structure that balancing / equilibration shortcuts see
+        f = np.array(draw(st.lists(st.sampled_from([1.0, 1.0, 100.0, 300.0]), min_size=m, max_size=m)))
+        if draw(st.booleans()):
+            A = A * f[:, None, None]
+        else:
+            A = A * f[:n][None, :, None]
     e = draw(st.sampled_from([0] * 8 + [-3, -2, -1, 1, 2, 3]))
     if e:
         A = A * 10.0 ** e
